@@ -43,7 +43,7 @@ type RunCfg struct {
 }
 
 func GenRunCfg(r *simrt.RNG) RunCfg {
-	c := RunCfg{MaxSteps: 20000}
+	c := RunCfg{MaxSteps: 150000}
 	switch r.Intn(4) {
 	case 0:
 		c.Policy = "random"
